@@ -86,6 +86,13 @@ def synth(rng, tier="quick", route=None, **force):
     route = route or rng.choice(["yaml", "dict"])
     nsub = force.get("nsub") or rng.randint(1, 6 if big else 4)
     sizes = [rng.randint(1, 4 if big else 3) for _ in range(nsub)]
+    if not (force.get("nsub") or force.get("max_hosts") or
+            force.get("wide")) and rng.random() < 0.06:
+        # two-digit subnet ids (10-13 subnets), sometimes a two-digit host id
+        nsub = rng.randint(10, 13)
+        sizes = [rng.randint(1, 2) for _ in range(nsub)]
+        if rng.random() < 0.3:
+            sizes[rng.randrange(nsub)] = rng.randint(11, 12)
     if force.get("wide"):
         sizes = [rng.randint(3, 8) for _ in range(nsub)]
     if force.get("max_hosts"):
